@@ -138,8 +138,37 @@ func vpIDClaims(t *oidc.IDToken, v interface{}) error {
 	if p, ok := v.(**json.RawMessage); ok {
 		m := json.RawMessage("{}")
 		*p = &m
+		return nil
 	}
-	return nil
+	// any other destination: encoding/json's rules applied to its static type
+	if vpBool("claims-not-json") {
+		return errors.New("vp: invalid JSON")
+	}
+	return vpJSONDecodeObject(v, vpIDMembers())
+}
+
+// vpClaimName: the member name under which claim i appears in the ID token. The first claim may be
+// spelled with another capitalisation — then it is NOT the user-name claim (JSON member names are
+// case-sensitive), just another member of the payload.
+func vpClaimName(i int) string {
+	if i == 0 && vpBool("claim-0-in-other-capitalisation") {
+		return "Preferred_Username"
+	}
+	return vpClaimNames[i]
+}
+
+// vpIDMembers: the ID-token payload as a JSON object (each user-name claim absent, a string, or a number).
+func vpIDMembers() []vpJSONMember {
+	var ms []vpJSONMember
+	for i := range vpClaimNames {
+		switch vpIntRange("claim-"+vpItoa(i), 0, 2) {
+		case 1:
+			ms = append(ms, vpJSONMember{Name: vpClaimName(i), S: vpString("claim-val-"+vpItoa(i), 2)})
+		case 2:
+			ms = append(ms, vpJSONMember{Name: vpClaimName(i), Kind: 1, N: 7})
+		}
+	}
+	return ms
 }
 
 // json.Unmarshal of the ID-token payload: each user-name claim is absent, a string, or a non-string.
@@ -153,7 +182,8 @@ func vpJSONUnmarshal(data []byte, v interface{}) error {
 		return nil
 	}
 	m := map[string]interface{}{}
-	for i, n := range vpClaimNames {
+	for i := range vpClaimNames {
+		n := vpClaimName(i)
 		switch vpIntRange("claim-"+vpItoa(i), 0, 2) {
 		case 1:
 			m[n] = vpString("claim-val-"+vpItoa(i), 2)
@@ -178,7 +208,7 @@ func vpRandRead(b []byte) (int, error) {
 }
 
 //vp:property C13
-//vp:bounds every failure point of the callback (state unknown/expired, code refused, id_token absent/non-string, verification failure, claims undecodable, payload not JSON, each of the four user-name claims absent / string of <= 2 bytes incl. empty / non-string), session store failing or not; state and code strings of 2 symbolic bytes
+//vp:bounds every failure point of the callback (state unknown/expired, code refused, id_token absent/non-string, verification failure, claims undecodable, payload not JSON, each of the four user-name claims absent / string of <= 2 bytes incl. empty / non-string, the first possibly spelled in another capitalisation), session store failing or not; state and code strings of 2 symbolic bytes
 //vp:assume go-cache, oauth2, go-oidc and encoding/json contracts of DESIGN Appendix C
 //vp:reach logged-in rejected noclaim
 func VP_C13_callback() {
@@ -217,7 +247,7 @@ func VP_C13_callback() {
 		// the session's user name is one of the token's user-name claims
 		match := false
 		for i := range vpClaimNames {
-			if vpIntRange("claim-"+vpItoa(i), 0, 2) == 1 && saved.UserName() == vpString("claim-val-"+vpItoa(i), 2) {
+			if vpIntRange("claim-"+vpItoa(i), 0, 2) == 1 && vpClaimName(i) == vpClaimNames[i] && saved.UserName() == vpString("claim-val-"+vpItoa(i), 2) {
 				match = true
 			}
 		}
